@@ -598,6 +598,29 @@ def rule_shared_counters(ctx, rep, rid='R3'):
                     term_callee_is(v_, '<alloc::sync::Arc as core::clone::Clone>::clone') and deep_peel(v_[2][0]) == ('field', ('param', 1), n_)
                     for n_, v_ in fs_.items())
     rep.ob(rid, 'clones-share-counters', okc, '', 'every field of SocketStats is an Arc and Clone is derived: a clone counts into the same cells')
+    # ... and a new SocketStats has a cell of its own for every figure: a hand-written Default / constructor that hands the same Arc
+    # (or a clone of it) to two fields makes two public figures count into one cell
+    makers = [x for x in cad.all_bodies if x.def_kind in ('Fn', 'AssocFn') and x.locals[0].strip() == SS and
+              not any(type_head(x.locals[i].lstrip('&').strip()) == SS for i in range(1, x.arg_count + 1)) and
+              not (x.file.endswith('/test.rs') or '::tests::' in x.path)]
+    alias = []
+    for mb_ in makers:
+        rep.analysed(mb_)
+        for r_ in ret_terms(Terms(inl(cad, mb_)), [0]):
+            if not (r_[0] == 'adt' and r_[1] == SS):
+                continue
+            seen_ = {}
+            for n_, v_ in r_[3]:
+                b_ = norm(v_)
+                while term_callee_is(peel(b_), '<alloc::sync::Arc as core::clone::Clone>::clone'):
+                    b_ = norm(peel(b_)[2][0])
+                b_ = peel(b_)
+                if b_ in seen_:
+                    alias.append('%s: %s and %s are the same cell' % (mb_.short(), seen_[b_], n_))
+                seen_[b_] = n_
+    rep.ob(rid, 'a-cell-of-its-own-per-figure', not alias, makers[0].where() if makers and alias else '',
+           'every way of making a SocketStats (%d hand-written; a derived Default makes each Arc afresh) gives each counter its own cell' % len(makers)
+           if not alias else 'two counters share one cell: %s' % '; '.join(alias))
     # buffered constructors: adapter gets stats.clone() of the value kept in the sink
     n = 0
     for adt, field, adapter in buffered_sinks(cad):
